@@ -265,7 +265,7 @@ func DecodeRequest(p Protocol, unary bool, method string, header http.Header, bo
 	if p == Connect && unary {
 		payload := body
 		compressed := alg != "" && alg != "identity"
-		if compressed {
+		if compressed && len(body) > 0 { // an empty body is the empty message whatever the encoding
 			var err error
 			payload, err = dec(alg, body)
 			if err != nil {
@@ -292,10 +292,12 @@ func DecodeRequest(p Protocol, unary bool, method string, header http.Header, bo
 				r.problem("request frame %d flagged compressed but %s names no algorithm", i, encH)
 				continue
 			}
-			payload, err = dec(alg, f.Payload)
-			if err != nil {
-				r.problem("request frame %d does not decompress with %q: %v", i, alg, err)
-				continue
+			if len(f.Payload) > 0 { // zero-length payload: the empty message
+				payload, err = dec(alg, f.Payload)
+				if err != nil {
+					r.problem("request frame %d does not decompress with %q: %v", i, alg, err)
+					continue
+				}
 			}
 		}
 		r.Msgs = append(r.Msgs, payload)
